@@ -1,19 +1,12 @@
 SPECIFICATION Spec
 CONSTANTS
-  Rule = "max"
+  Rule = "min"
   Families = {"geo", "rev", "gap", "phot", "two"}
   Starts = {7, 30}
   Lens = {3, 5}
   ASet = {3}
   ARef = 2
   Licensed = TRUE
-  Export = TRUE
+  Export = FALSE
 INVARIANT LikelihoodOfFullGrid
-INVARIANT ClipCoversBins
-INVARIANT CoverLemma
-INVARIANT Observed
-INVARIANT FamiliesInside
-INVARIANT WindowLemma
-INVARIANT FitsInv
-CONSTRAINT Emit
 CHECK_DEADLOCK FALSE
